@@ -219,6 +219,76 @@ def unsupported_use_workload(res, rng):
         res.count("percpu_python_write_workloads")
         absorb(mon, res, "percpu-python-write")
         ld.close()
+    # the environment cannot tell how many CPUs there are (os.cpu_count()
+    # returns None): whatever the library does then, it must not hand the
+    # kernel a buffer for fewer CPUs than the kernel keeps values for
+    import ebpfcat.arraymap as am
+    old_cc = am.cpu_count
+    am.cpu_count = lambda: None
+    try:
+        with kern.session() as sess:
+            pm = PerCPUArrayMap()
+            ns = {"license": "GPL", "pm": pm, "cnt": pm.globalVar("Q")}
+            ns["program"] = program2
+            with sysmon.Monitor(sess) as mon:
+                try:
+                    e = type("VfPCN", (XDP,), ns)()
+                    ld = prog.Loaded(e, sess)
+                    ld.load()
+                    ld.run_k(bytes(64))
+                    e.pm.read()
+                    _ = list(e.cnt)
+                except sysmon.Refused:
+                    pass
+                except Exception:
+                    res.count("unsupported_uses_refused_by_the_library")
+            res.count("percpu_workloads_without_a_cpu_count")
+            absorb(mon, res, "percpu-no-cpu-count")
+    finally:
+        am.cpu_count = old_cc
+
+
+def format_lookup_workload(res, rng):
+    """the map calls by struct format string (lookup_elem(fd, key, '<I') as
+    FastEtherCat.register_sync_group uses it to probe a program-table slot,
+    lookup_and_delete_elem, get_next_key) on keys that exist"""
+    from ebpfcat import bpf as B
+    from ebpfcat.bpf import MapType
+    with kern.session() as sess:
+        with sysmon.Monitor(sess) as mon:
+            for vfmt, vsize in (("<I", 4), ("Q", 8), ("<HH", 4), ("8s", 8),
+                                ("<q", 8)):
+                fd = sess.create_map(MapType.HASH, 4, vsize, 4)
+                key = struct.pack("<I", rng.randrange(1000))
+                B.update_elem(fd, key, bytes(range(1, vsize + 1)))
+                for fn in (B.lookup_elem, B.lookup_and_delete_elem):
+                    try:
+                        fn(fd, key, vfmt)
+                    except sysmon.Refused:
+                        raise
+                    except Exception:
+                        res.count("format_lookups_failed")
+                    B.update_elem(fd, key, bytes(vsize))
+                try:
+                    B.lookup_elem(fd, key, vsize)
+                    list(_keys(B, fd, 4))
+                except sysmon.Refused:
+                    raise
+                except Exception:
+                    res.count("format_lookups_failed")
+        res.count("format_lookup_workloads")
+        absorb(mon, res, "format-lookup")
+
+
+def _keys(B, fd, ksize):
+    """iterate the keys the way TheDict does: first by size, then by key"""
+    key = ksize
+    for _ in range(16):
+        try:
+            key = B.get_next_key(fd, key)
+        except (KeyError, StopIteration):
+            return
+        yield key
 
 
 def closed_program_workload(res, rng):
@@ -390,6 +460,7 @@ def run_shard(params):
     for _ in range(3):
         guarded(percpu_instances_workload, "percpu-instances")
     guarded(misuse_workload, "misuse")
+    guarded(format_lookup_workload, "format-lookup")
     for _ in range(3):
         guarded(closed_program_workload, "closed-program")
         guarded(unsupported_use_workload, "unsupported-use")
